@@ -110,6 +110,17 @@ REPROS = {
         "        e = np.linalg.norm(np.asarray(a.todense())*a.coeff - ref); print(meth.name, 'force_ovlp', fo, 'error on the re-gauged (same vector, same flags) input', e)\n"
         "        if e > 1e-3: bad.append((meth.name, fo, e))\n"
         "sys.exit(1 if bad else 0)\n",
+    "input-object-reuse": PRE +
+        "s = Mps.random(m, 1, 8).canonicalise().canonicalise(); psi = dense(s); bad = []\n"
+        "for trapz in (False, True):\n"
+        "    a = s.copy(); a.evolve_config = EvolveConfig(EvolveMethod.tdvp_mu_cmf); a.evolve_config.tdvp_cmf_c_trapz = trapz\n"
+        "    fresh = []\n"
+        "    for k in range(2):\n"
+        "        f = a.copy(); f.evolve_config = a.evolve_config.copy(); fresh.append(np.linalg.norm(dense(f.evolve(mpo, 0.04)) - sla.expm(-0.04j*H) @ psi))\n"
+        "    errs = [np.linalg.norm(dense(a.evolve(mpo, 0.04)) - sla.expm(-0.04j*H) @ psi) for k in range(2)]   # the same object twice\n"
+        "    print('CMF trapz=%s: error of two calls on one input object' % trapz, errs, ' on fresh copies', fresh, ' midpoint flag afterwards', a.evolve_config.tdvp_cmf_midpoint, a.evolve_config.tdvp_cmf_c_trapz)\n"
+        "    if errs[1] > 1.5*errs[0] or not a.evolve_config.tdvp_cmf_midpoint or a.evolve_config.tdvp_cmf_c_trapz != trapz: bad.append(trapz)\n"
+        "sys.exit(1 if bad else 0)\n",
     "cmf-krylov-solver-dependence": PRE +
         "s = Mps.random(m, 1, 8).canonicalise().canonicalise()\n"
         "outs = []\n"
@@ -138,6 +149,8 @@ def classify(k, rec):
     if k.startswith("gauge/") and k.split("/")[1].startswith(("tdvp_vmf", "tdvp_mu_vmf", "cmf")) and \
             k.split("/")[2] in ("regauged-left-flags", "regauged-right-flags", "added-raw", "operator-applied"):
         return "vmf-cmf-noncanonical-input"
+    if k.startswith(("reuse/", "exception/reuse/")):
+        return "input-object-reuse"
     if k.startswith("gauge/ps/operator-applied"):
         return "tdvp-ps-noncanonical-input"
     if k.startswith("solver-dependence/tdvp_mu_cmf"):
@@ -634,6 +647,7 @@ def run(ctx):
                 "vmf-overcomplete-singular-overlap": "oracle clause `any gauge, sufficient bond dimension` (exception on an accepted input)",
                 "tdrk-adaptive-callable-time-offset": "theorem C09_tdrk_offset_is_accepted_time / Model.Prop.rk_stages (stage Hamiltonian sampled at c_i*dt + t0) vs the recorded sample times, and the dense fixed-step reference",
                 "vmf-cmf-noncanonical-input": "oracle clause `any gauge, sufficient bond dimension` (mean-field TDVP on a non-canonical representation)",
+                "input-object-reuse": "oracle clause `the result does not depend on how t is split into successive calls` (one input object re-used; its evolve_config must come back unchanged)",
                 "tdvp-ps-noncanonical-input": "oracle clause `any gauge, sufficient bond dimension` (TDVP-PS inexact at full bond dimension)",
                 "cmf-krylov-solver-dependence": "oracle clause `result does not depend on the local integrator`"}.get(key, "dense oracle: " + key)
         ctx.violation(key, what, {"n_records": len(recs), "records": recs[:3]}, found=found, repro=repro)
